@@ -42,6 +42,8 @@ impl Sys for Collect {
 pub struct Race {
     pub world: World,
     pub racers: Vec<usize>,
+    /// the snapshot urgency the server answers with during the race
+    pub urg: Urg,
 }
 
 pub struct RaceCtx {
@@ -50,9 +52,10 @@ pub struct RaceCtx {
 
 type Out = (Mem, Result<(), String>);
 
-async fn sync_task(mut mem: Mem, chain: Arc<Mutex<ChainState>>, gate: GateH, who: usize) -> Out {
+async fn sync_task(mut mem: Mem, chain: Arc<Mutex<ChainState>>, gate: GateH, who: usize, urg: Urg) -> Out {
     let mut server = MServer::new(chain, who);
     server.gate = gate;
+    server.ctl.urgency.lock().unwrap().1 = Some(urg.to_real());
     let mut boxed = server.boxed();
     let r = with_replica(&mut mem, Ctl::new(), async |rep| rep.sync(&mut boxed, false).await.map_err(|e| format!("{e:#}"))).await;
     (mem, r)
@@ -71,7 +74,7 @@ impl Scenario for Race {
         let mut futs: Vec<TaskFut<Out>> = vec![];
         for (k, &r) in self.racers.iter().enumerate() {
             let mem = self.world.reps[r].clone();
-            futs.push(Box::pin(sync_task(mem, chain.clone(), gates[k].clone(), r)));
+            futs.push(Box::pin(sync_task(mem, chain.clone(), gates[k].clone(), r, self.urg)));
         }
         (RaceCtx { chain }, futs)
     }
@@ -108,7 +111,12 @@ impl Scenario for Race {
 }
 
 fn start_states(r: usize, depth: usize, updates: Vec<(String, Option<String>, i64)>, big: u8, populated: bool) -> Vec<(World, Vec<Act>)> {
+    start_states_active(r, r, depth, updates, big, populated)
+}
+
+fn start_states_active(r: usize, active: usize, depth: usize, updates: Vec<(String, Option<String>, i64)>, big: u8, populated: bool) -> Vec<(World, Vec<Act>)> {
     let mut inner = SyncSys::new(r);
+    inner.active = active;
     inner.updates = updates;
     inner.big_budget = big;
     inner.populated = populated;
@@ -164,16 +172,20 @@ pub fn run(opts: &Opts) -> i32 {
     let bound3 = if q { 2 } else { 3 };
     let three = vec![("p".to_string(), Some("a".to_string()), 1), ("p".to_string(), Some("b".to_string()), 2), ("q".to_string(), Some("a".to_string()), 1)];
     let mut spaces = vec![
-        ("R3-small", start_states(3, d0, small_updates(), 0, false)),
-        ("R3-populated", start_states(3, if q { 5 } else { 6 }, three.clone(), 0, true)),
+        ("R3-small", start_states(3, d0, small_updates(), 0, false), Urg::None),
+        ("R3-populated", start_states(3, if q { 5 } else { 6 }, three.clone(), 0, true), Urg::None),
+        // a brand-new third replica races with the others while the server asks for snapshots:
+        // get_snapshot / add_snapshot requests interleave with the version requests
+        ("R3-fresh-replica-snapshots", start_states_active(3, 2, if q { 4 } else { 5 }, three.clone(), 0, false), Urg::High),
     ];
     if !q {
-        spaces.push(("R3-big", start_states(3, 5, vec![("p".into(), Some("a".into()), 1), ("p".into(), Some("b".into()), 2)], 1, false)));
+        spaces.push(("R3-big", start_states(3, 5, vec![("p".into(), Some("a".into()), 1), ("p".into(), Some("b".into()), 2)], 1, false), Urg::None));
+        spaces.push(("R3-big-snapshots", start_states_active(3, 2, 5, vec![("p".into(), Some("a".into()), 1)], 1, false), Urg::High));
     } else {
-        spaces.push(("R2-big", start_states(2, 5, vec![("p".into(), Some("a".into()), 1), ("p".into(), Some("b".into()), 2)], 1, false)));
+        spaces.push(("R2-big", start_states(2, 5, vec![("p".into(), Some("a".into()), 1), ("p".into(), Some("b".into()), 2)], 1, false), Urg::None));
     }
     let deadline = std::time::Instant::now() + std::time::Duration::from_secs_f64(opts.budget_s);
-    for (name, starts) in spaces {
+    for (name, starts, urg) in spaces {
         let jobs: Vec<(usize, Vec<usize>)> = starts
             .iter()
             .enumerate()
@@ -194,6 +206,7 @@ pub fn run(opts: &Opts) -> i32 {
                 let sc = Race {
                     world: starts[*i].0.clone(),
                     racers: racers.clone(),
+                    urg,
                 };
                 let cfg = ExploreCfg {
                     bound: if racers.len() >= 3 { bound3 } else { usize::MAX },
@@ -224,7 +237,7 @@ pub fn run(opts: &Opts) -> i32 {
             for f in fails.into_iter().take(1) {
                 let class = f.what.split(':').next().unwrap_or("").to_string();
                 // replay twice before reporting
-                let sc = Race { world: starts[i].0.clone(), racers: racers.clone() };
+                let sc = Race { world: starts[i].0.clone(), racers: racers.clone(), urg };
                 let choices: Vec<Choice> = f.trace.iter().map(|(c, _)| *c).collect();
                 let r1 = crate::explore::sched::replay(&sc, &choices).map(|(_, r)| r.err());
                 let r2 = crate::explore::sched::replay(&sc, &choices).map(|(_, r)| r.err());
@@ -235,7 +248,7 @@ pub fn run(opts: &Opts) -> i32 {
                 rep.violation(Violation::new(
                     format!("{class}:{name}"),
                     f.what.clone(),
-                    json!({"kind": "c02-race", "space": name, "replicas": starts[i].0.reps.len(),
+                    json!({"kind": "c02-race", "space": name, "urgency": urg, "replicas": starts[i].0.reps.len(),
                            "prior_history": super::c01::trace_json(&starts[i].1), "racers": racers,
                            "schedule": trace_to_json(&f.trace), "observed": f.what}),
                 ));
@@ -271,7 +284,11 @@ pub fn replay(case: &serde_json::Value) -> Result<(), String> {
     }
     let racers: Vec<usize> = serde_json::from_value(case["racers"].clone()).map_err(|e| e.to_string())?;
     let choices: Vec<Choice> = case["schedule"].as_array().unwrap().iter().map(|e| serde_json::from_value(e["choice"].clone()).unwrap()).collect();
-    let sc = Race { world: w, racers: racers.clone() };
+    let urg: Urg = serde_json::from_value(case["urgency"].clone()).unwrap_or(Urg::None);
+    if case["space"].as_str().unwrap_or("").contains("fresh") || case["space"].as_str().unwrap_or("").contains("snapshots") {
+        // prior history of these spaces only uses the first two replicas; nothing else differs
+    }
+    let sc = Race { world: w, racers: racers.clone(), urg };
     let (trace, r) = crate::explore::sched::replay(&sc, &choices)?;
     for (c, l) in &trace {
         println!("  R{} {}", racers[c.task], l);
